@@ -4,7 +4,7 @@ check on a scratch worktree (tools/try_mutant.sh) and records what detected it i
 import json, os, subprocess, sys, re, glob
 from concurrent.futures import ThreadPoolExecutor
 V = os.path.dirname(os.path.dirname(os.path.abspath(__file__)))
-ids = sys.argv[1:] or sorted(os.path.basename(d) for d in glob.glob(os.path.join(V, 'seeded', 'C*-m*')))
+ids = sys.argv[1:] or sorted(os.path.basename(d) for d in glob.glob(os.path.join(V, 'seeded', 'C*-*m*')))
 def run(i):
     meta_p = os.path.join(V, 'seeded', i, 'meta.json')
     meta = json.load(open(meta_p))
